@@ -49,13 +49,12 @@ def _extract_prints(out):
     res = []
     i = 0
     n = len(out)
+    pat = re.compile(r'^<<\s*"', re.M)
     while True:
-        j = out.find('<<"', i)
-        if j < 0:
+        m = pat.search(out, i)
+        if not m:
             break
-        if j > 0 and out[j - 1] not in "\n":
-            i = j + 3
-            continue
+        j = m.start()
         depth = 0
         k = j
         instr = False
